@@ -264,6 +264,7 @@ class ArffLineReader(Filter[str, Sequence[str]]):
             if quotechar == '"':
                 pass
             elif quotechar is None:
+                quotechar = '"' #so that a ' in this same line sends us to the advanced parser
                 self._quotechar = '"'
                 dialect['quotechar'] = '"'
             else:
